@@ -18,14 +18,14 @@ namespace DD
 
 /-! ### the state kept between decorated calls, the contract of sifting -/
 
-theorem OrderOK.of_eq {t t' : Tbl} (hv : t'.vars = t.vars) (hl : t'.l2v = t.l2v) (h : OrderOK t) :
+theorem OrderOK.of_maps_eq {t t' : Tbl} (hv : t'.vars = t.vars) (hl : t'.l2v = t.l2v) (h : OrderOK t) :
     OrderOK t' := by
   have hn : t'.nvars = t.nvars := by show t'.vars.size = t.vars.size; rw [hv]
   exact ⟨fun v i => by rw [hv, hl]; exact h.inv v i, fun v i => by rw [hv, hn]; exact h.lt v i,
     fun i => by rw [hn, hl]; exact h.total i⟩
 
 theorem OrderOK.frame {m m' : Mgr} (hf : Frame m m') (h : OrderOK m.tbl) : OrderOK m'.tbl :=
-  h.of_eq hf.vars hf.l2v
+  h.of_maps_eq hf.vars hf.l2v
 
 /-- what holds between two decorated calls of a manager whose user holds the references counted
 by the ledger `ext`: invariant, name/level maps inverse, counts exact, not inside a context,
